@@ -26,7 +26,7 @@ VARIABLES
   ppc,     \* [task -> index of the next op]
   pd,      \* [task -> decision pending for the trapped call]
   exe,     \* names (markers and untraced calls) that took effect
-  res,     \* [k |-> "none"|"exit"|"ds"|"fk", x |-> code]  why the run ended
+  res,     \* [k |-> "none"|"exit"|"ds"|"fk"|"killed", x |-> code]  why the run ended
   fkc      \* child processes (leaders) killed by the filter
 pvars == <<pscript, pdec, st, ppc, pd, exe, res, fkc>>
 
@@ -103,8 +103,8 @@ Step(k, op, r) ==
        [] op = "W" -> /\ r = 0 /\ UNCHANGED <<exe, st, res>>
                       /\ \A j \in PCreated(k) : PGone(j) /\ (PLeader(j) \in fkc => res.k # "none")
        [] op \in {"Y", "P"} -> UNCHANGED <<exe, st, res>>
-       [] op = "J" -> /\ r = 0 /\ UNCHANGED <<exe, res>>
-                      /\ st' = [j \in PTasks |-> IF j \in PGroup(POp(k).n) /\ st[j] # "unborn" THEN "dead" ELSE st[j]]
+       [] op = "J" -> \/ r = 0 /\ EndGroup(POp(k).n, "killed", 9) /\ UNCHANGED exe
+                      \/ r = -3 /\ st[POp(k).n] = "dead" /\ UNCHANGED <<exe, st, res>>   \* ESRCH: already reaped
        [] op = "X" -> r = POp(k).n /\ EndGroup(k, "exit", r) /\ UNCHANGED exe
        [] op = "E" -> r = 0 /\ st' = [st EXCEPT ![k] = "dead"] /\ UNCHANGED <<exe, res>>
        [] OTHER -> FALSE
@@ -143,5 +143,6 @@ Verdict(status, exit) ==
   CASE res.k = "ds" -> status = "Disallowed"
     [] res.k = "fk" -> status = "Disallowed"
     [] res.k = "exit" -> IF res.x = 0 THEN status = "Normal" ELSE status = "Nonzero" /\ exit = res.x
+    [] res.k = "killed" -> status \in {"TLE", "Signalled"}     \* the program SIGKILLed its own main process
     [] OTHER -> FALSE      \* the program neither ended nor was it refused: no verdict is justified
 =============================================================================
